@@ -71,10 +71,15 @@ fn worker(
     receiver: Receiver<BoxedDispatchable>,
     counter: Arc<AtomicUsize>,
     timeout: Duration,
+    first: BoxedDispatchable,
 ) -> impl FnOnce() {
     move || {
         counter.fetch_add(1, Ordering::AcqRel);
         let _guard = CounterGuard(counter);
+        // The job this worker was spawned for is handed over directly. Sending it
+        // through the rendezvous channel would block the dispatcher for ever if the
+        // worker's first `recv_timeout` expired before the dispatcher got to send.
+        first.run();
         while let Ok(f) = receiver.recv_timeout(timeout) {
             f.run()
         }
@@ -126,8 +131,8 @@ impl AsyncifyPool {
                             self.receiver.clone(),
                             self.counter.clone(),
                             self.recv_timeout,
+                            f,
                         ));
-                        self.sender.send(f).expect("the channel should not be full");
                         Ok(())
                     }
                 }
